@@ -47,9 +47,11 @@ type ProviderCache struct {
 	refreshIn    time.Duration
 	refreshTimer *time.Timer
 
-	// refreshes counts the refreshes that consulted all sources without being
-	// canceled.
-	refreshes atomic.Uint64
+	// refreshStarts numbers the refreshes in the order in which they began
+	// to consult the sources. lastComplete is the number of the latest one
+	// that consulted all sources without being canceled.
+	refreshStarts atomic.Uint64
+	lastComplete  atomic.Uint64
 }
 
 // cacheInfo contains writable cache info.
@@ -263,7 +265,8 @@ func (pc *ProviderCache) Len() int {
 
 // Refresh initiates an immediate cache refresh.
 func (pc *ProviderCache) Refresh(ctx context.Context) error {
-	refreshes := pc.refreshes.Load()
+	// Refreshes that began before this call was made.
+	started := pc.refreshStarts.Load()
 	verifhook.Point("pcache.lock", "refresh")
 	select {
 	case pc.writeLock <- struct{}{}:
@@ -274,14 +277,17 @@ func (pc *ProviderCache) Refresh(ctx context.Context) error {
 		case <-ctx.Done():
 			return ctx.Err()
 		}
-		if pc.refreshes.Load() != refreshes {
-			// It was a refresh and it completed, there is no need for
-			// another one.
+		if pc.lastComplete.Load() > started {
+			// A refresh that began to consult the sources after this call
+			// was made has completed: what the sources reported when this
+			// call was made is in the cache, there is no need for another
+			// refresh.
 			<-pc.writeLock
 			return nil
 		}
-		// It was the fetch of a missing provider, or a refresh that got
-		// canceled: the cache has not been refreshed, do it now.
+		// It was the fetch of a missing provider, a refresh that got
+		// canceled, or a refresh that had already asked its sources when
+		// this call was made: refresh now.
 	}
 	defer func() {
 		<-pc.writeLock
@@ -289,6 +295,7 @@ func (pc *ProviderCache) Refresh(ctx context.Context) error {
 
 	pc.seq++
 	seq := pc.seq
+	refreshNum := pc.refreshStarts.Add(1)
 
 	// If the refresh is canceled part-way, what was already learned from the
 	// sources that responded is still published, so that the write map and
@@ -386,7 +393,7 @@ func (pc *ProviderCache) Refresh(ctx context.Context) error {
 		if canceled {
 			return ctx.Err()
 		}
-		pc.refreshes.Add(1)
+		pc.lastComplete.Store(refreshNum)
 		return nil
 	}
 
@@ -406,7 +413,7 @@ func (pc *ProviderCache) Refresh(ctx context.Context) error {
 	if canceled {
 		return ctx.Err()
 	}
-	pc.refreshes.Add(1)
+	pc.lastComplete.Store(refreshNum)
 	return nil
 }
 
